@@ -3,7 +3,11 @@ and hex tables, (b) no surrogate / nothing above U+10FFFF is ever encoded
 (value-set analysis of handle_unicode_codepoint over all paths), (c)
 codepoint_to_utf8 agrees with UTF-8 (RFC 3629) on boundary and sampled code
 points, (d) error classes match their detecting condition
-(DESIGN.md section 5/C05)."""
+(e) every consumption of source bytes in parseStringInplace is dominated by
+the control-byte screening of the current block, (f) the three StringBlock
+predicates mean first-of(quote, backslash, control) for every bit placement,
+(g) the masks are built from the byte classes 0x5c / 0x22 / below 0x20 in field
+order (DESIGN.md section 5/C05)."""
 from ..core import get_facts, strip, strip_expect, cval, show, walk, locline, AnalysisBroken
 from ..e5_tables import arr, find_static, check_rows
 from ..e3_isets import ISet, PathEnum, M32
@@ -258,6 +262,275 @@ def clause_d(facts, rep, nss):
     rep.require(n >= 4, 'C05.d: only %d error stores found' % n)
 
 
+# ---------------------------------------------------------------------------
+# (e) control-byte screening dominates every consumption of block bytes
+
+def _is_block_write(s_):
+    """statement that (re)computes the StringBlock variable"""
+    if s_.get('k') == 'decl':
+        return any('StringBlock' in (v.get('t') or '') for v in s_['vars'])
+    if s_.get('k') == 'call' and s_.get('cname') == 'operator=':
+        a = s_.get('args') or []
+        return bool(a) and 'StringBlock' in (strip(a[0]).get('t') or '')
+    return False
+
+
+def _consumes(s_):
+    """does the statement move `src` forward or copy source bytes to dst?
+    returns a description or None"""
+    k = s_.get('k')
+    if k == 'bin' and s_['op'] == '+=' and strip(s_['l']).get('k') == 'ref' and strip(s_['l']).get('name') == 'src':
+        return 'advance'
+    if k == 'un' and s_['op'] in ('++',) and strip(s_['e']).get('k') == 'ref' and strip(s_['e']).get('name') == 'src':
+        return 'advance'
+    if k == 'bin' and s_['op'] == '=':
+        for e in walk(s_['r']):
+            if e.get('k') == 'un' and e['op'] == '++' and strip(e['e']).get('k') == 'ref' and strip(e['e']).get('name') == 'src':
+                return 'copy'
+    if k == 'call' and s_.get('cname') == 'store':
+        return 'vector-copy'
+    return None
+
+
+def clause_e(facts, rep, nss):
+    n = 0
+    for f in facts.functions:
+        if f.short != 'parseStringInplace' or not any(ns in f.qn for ns in nss):
+            continue
+        # the predicate the screening relies on: HasQuoteFirst implies !HasUnescaped (checked by value in clause f)
+        def gen_edge(b, cond, sense):
+            c = strip_expect(cond)
+            neg = False
+            while c is not None and c.get('k') == 'un' and c['op'] == '!':
+                neg = not neg
+                c = strip_expect(c['e'])
+            if c is not None and c.get('k') == 'call' and 'StringBlock' in (c.get('ccls') or ''):
+                if c.get('cname') == 'HasUnescaped' and sense == neg:
+                    return ['screened']
+                if c.get('cname') == 'HasQuoteFirst' and sense != neg:
+                    return ['screened']
+            return []
+
+        def kill_stmt(s):
+            s_ = strip(s)
+            return ['screened'] if s_ is not None and _is_block_write(s_) else []
+        M = Must(f, gen_edge=gen_edge, kill_stmt=kill_stmt)
+        sites = 0
+        for bid, i, s in f.stmts():
+            s_ = strip(s)
+            if s_ is None:
+                continue
+            kind = _consumes(s_)
+            if kind is None:
+                continue
+            st = M.at(bid, i)
+            if st is None:
+                continue
+            sites += 1
+            rep.check('screened' in st, 'E2.control-screen', f.qn, '%s: %s' % (kind, show(s_)), locline(s_['loc']),
+                      'source bytes are consumed only after the current block was screened for raw control bytes '
+                      '(false edge of HasUnescaped() or true edge of HasQuoteFirst() since the block was computed)', facts.config)
+        # a successful return must also sit behind a screening
+        for bid, i, s in f.stmts():
+            s_ = strip(s)
+            if s_ is not None and s_.get('k') == 'ret' and cval(s_.get('e')) is None:
+                st = M.at(bid, i)
+                if st is None:
+                    continue
+                sites += 1
+                rep.check('screened' in st, 'E2.control-screen', f.qn, 'success return %s' % show(s_), locline(s_['loc']),
+                          'a literal is accepted only after its last block was screened', facts.config)
+        rep.require(sites >= 20, 'C05.e: only %d consumption sites found in %s' % (sites, f.qn))
+        n += 1
+    rep.require(n >= 1, 'C05.e: parseStringInplace not found')
+
+
+# ---------------------------------------------------------------------------
+# (f) the three block predicates mean "first among quote / backslash / control"
+
+class _Unsup(Exception):
+    pass
+
+
+def _eval_method(facts, fn, fields, depth=0):
+    rets = [strip(s) for _, _, s in fn.stmts() if isinstance(s, dict) and strip(s) is not None and strip(s).get('k') == 'ret']
+    if len(rets) != 1 or depth > 4:
+        raise _Unsup('%s: expected a single return expression' % fn.qn)
+
+    def width(t):
+        t = (t or '')
+        if t in ('_Bool', 'bool'):
+            return 1
+        if '64' in t or 'long' in t:
+            return 64
+        if '16' in t or 'short' in t:
+            return 16
+        if '8' in t or 'char' in t:
+            return 8
+        return 32
+
+    def ev(e):
+        k = e.get('k')
+        if k == 'lit' or (e.get('cv') is not None and k in ('cast', 'lit')):
+            return int(e['cv'])
+        if k == 'cast':
+            v = ev(e['e'])
+            if e.get('ck') == 'IntegralToBoolean':
+                return 1 if v else 0
+            w = width(e.get('t'))
+            return v & ((1 << w) - 1)
+        if k == 'paren':
+            return ev(e['e'])
+        if k == 'member' and strip(e.get('base')) is not None and strip(e['base']).get('k') == 'this':
+            if e['name'] not in fields:
+                raise _Unsup('unknown field %s' % e['name'])
+            return fields[e['name']]
+        if k == 'un':
+            if e['op'] == '!':
+                return 0 if ev(e['e']) else 1
+            if e['op'] == '~':
+                return ~ev(e['e']) & ((1 << width(e.get('t'))) - 1)
+            raise _Unsup('unary %s' % e['op'])
+        if k == 'bin':
+            op = e['op']
+            if op == '&&':
+                return 1 if (ev(e['l']) and ev(e['r'])) else 0
+            if op == '||':
+                return 1 if (ev(e['l']) or ev(e['r'])) else 0
+            a, b = ev(e['l']), ev(e['r'])
+            m = (1 << width(e.get('t'))) - 1
+            if op == '-':
+                return (a - b) & m
+            if op == '+':
+                return (a + b) & m
+            if op == '&':
+                return a & b
+            if op == '|':
+                return a | b
+            if op == '^':
+                return a ^ b
+            if op in ('==', '!=', '<', '>', '<=', '>='):
+                return 1 if {'==': a == b, '!=': a != b, '<': a < b, '>': a > b, '<=': a <= b, '>=': a >= b}[op] else 0
+            raise _Unsup('binary %s' % op)
+        if k == 'call' and e.get('cid') in facts.by_id and facts.by_id[e['cid']].cls_qn == fn.cls_qn and not e.get('args'):
+            return _eval_method(facts, facts.by_id[e['cid']], fields, depth + 1)
+        raise _Unsup('expression %s' % show(e)[:60])
+    return ev(rets[0]['e'])
+
+
+def clause_f(facts, rep, nss):
+    n = 0
+    POS = (0, 1, 2, 15, 30, 31)
+    for cls in sorted(set(f.cls_qn for f in facts.functions if f.cls_qn and f.cls_qn.endswith('::StringBlock') and any(ns in f.cls_qn + '::' for ns in nss))):
+        ms = {f.short: f for f in facts.functions if f.cls_qn == cls}
+        rep.require(all(k in ms for k in ('HasQuoteFirst', 'HasBackslash', 'HasUnescaped')), 'C05.f: StringBlock predicates missing in %s' % cls)
+        wide = 32 if 'avx2' in cls else 16
+        pos = [p for p in POS if p < wide] + ([wide - 2, wide - 1] if wide < 32 else [])
+        pos = sorted(set(pos))
+        bad = {k: None for k in ('HasQuoteFirst', 'HasBackslash', 'HasUnescaped')}
+        cnt = 0
+        try:
+            import itertools
+            for combo in itertools.product(range(4), repeat=len(pos)):
+                bs = q = u = 0
+                for p, c in zip(pos, combo):
+                    if c == 1:
+                        bs |= 1 << p
+                    elif c == 2:
+                        q |= 1 << p
+                    elif c == 3:
+                        u |= 1 << p
+                fq = min([p for p in pos if q >> p & 1], default=None)
+                below = (lambda m: any((m >> p & 1) and (fq is None or p < fq) for p in pos))
+                ref = {'HasUnescaped': below(u), 'HasBackslash': below(bs), 'HasQuoteFirst': fq is not None and not below(bs) and not below(u)}
+                fields = {'bs_bits': bs, 'quote_bits': q, 'unescaped_bits': u}
+                cnt += 1
+                for k in bad:
+                    if bad[k] is None and bool(_eval_method(facts, ms[k], fields)) != ref[k]:
+                        bad[k] = 'bs=%#x quote=%#x ctrl=%#x: expected %s' % (bs, q, u, ref[k])
+        except _Unsup as ex:
+            raise AnalysisBroken('C05.f: cannot evaluate %s predicates: %s' % (cls, ex))
+        for k in sorted(bad):
+            rep.check(bad[k] is None, 'E5.block-predicate', ms[k].qn,
+                      '%s() == "%s" for all %d placements of quote/backslash/control bits at lanes %s' % (
+                          k, {'HasUnescaped': 'a control byte precedes the first quote', 'HasBackslash': 'a backslash precedes the first quote',
+                              'HasQuoteFirst': 'a quote exists and neither a backslash nor a control byte precedes it'}[k], cnt, pos),
+                      ms[k].loc, bad[k] or '', facts.config)
+        n += 1
+    rep.require(n >= 1, 'C05.f: StringBlock not found')
+
+
+# ---------------------------------------------------------------------------
+# (g) the three masks are built from the right byte classes, in field order
+
+def _consts_in(e):
+    """constant operands of the expression: the outermost constant-evaluated
+    sub-expressions (so that -1 is one constant, not the literal 1)"""
+    out = []
+
+    def rec(x):
+        if isinstance(x, dict):
+            if x.get('cv') is not None and x.get('k') in ('lit', 'cast', 'un', 'bin', 'paren'):
+                out.append(int(x['cv']))
+                return
+            for k, v in x.items():
+                if k in ('t', 'loc', 'sloc', 'cv'):
+                    continue
+                rec(v)
+        elif isinstance(x, list):
+            for y in x:
+                rec(y)
+    rec(e)
+    return out
+
+
+def _classify_mask_expr(e):
+    """recognise the byte class a mask argument selects: ('eq', c) / ('le', c) / None"""
+    names = [x.get('cname') for x in walk(e) if x.get('k') in ('call', 'ctor') and x.get('cname')]
+    cs = [c for c in _consts_in(e)]
+    sc = [c - 256 if c > 127 else c for c in cs]
+    if 'operator==' in names or '_mm_cmpeq_epi8' in names:
+        if 'operator<=' in names or 'operator<' in names or '_mm_cmplt_epi8' in names:
+            return None
+        return ('eq', [c for c in cs if c not in (0,)])
+    if 'operator<=' in names:
+        return ('le', cs)
+    if 'operator<' in names:
+        return ('lt', cs)
+    if '_mm_cmplt_epi8' in names:
+        # signed compare: bytes >= 0x80 must be masked off by cmpgt(v, -1)
+        if '_mm_cmpgt_epi8' in names and '_mm_and_si128' in names and -1 in sc:
+            return ('lt', [c for c in cs if c not in (255,) and c >= 0 and c != -1 and c < 128])
+        return ('lt-signed-unguarded', cs)
+    return None
+
+
+def clause_g(facts, rep, nss):
+    n = 0
+    for f in facts.functions:
+        if not any(ns in f.qn for ns in nss):
+            continue
+        if not (f.short == 'parseStringInplace' or (f.short == 'Find' and (f.cls_qn or '').endswith('::StringBlock'))):
+            continue
+        for bid, i, s, e in f.walk():
+            if e.get('k') not in ('initlist', 'ctor') or 'StringBlock' not in (e.get('t') or ''):
+                continue
+            args = e.get('args') or e.get('inits') or []
+            if len(args) != 3:
+                continue
+            cl = [_classify_mask_expr(a) for a in args]
+            if any(c is None for c in cl):
+                raise AnalysisBroken('C05.g: unrecognised mask expression in %s at %s' % (f.qn, locline(e['loc'])))
+            n += 1
+            want = [('backslash', lambda c: c[0] == 'eq' and 92 in c[1] and 34 not in c[1]),
+                    ('quote', lambda c: c[0] == 'eq' and 34 in c[1] and 92 not in c[1]),
+                    ('control', lambda c: (c[0] == 'le' and 31 in c[1] and 32 not in c[1]) or (c[0] == 'lt' and 32 in c[1] and 31 not in c[1]))]
+            for (nm, pred), c, a in zip(want, cl, args):
+                rep.check(pred(c), 'E5.block-class', f.qn, '%s mask: %s' % (nm, show(a)[:90]), locline(e['loc']),
+                          'the StringBlock fields are (bs_bits, quote_bits, unescaped_bits) = lanes equal to 0x5c, equal to 0x22, unsigned-below 0x20; got %s' % (c,), facts.config)
+    rep.require(n >= 2, 'C05.g: only %d StringBlock constructions found' % n)
+
+
 def run(rep, tier):
     configs = [('K1', ('::avx2::',))] if tier == 'quick' else [('K1', ('::avx2::',)), ('K3', ('::sse::',)), ('K4', ('::avx2::', '::sse::'))]
     for cfg, nss in configs:
@@ -267,8 +540,11 @@ def run(rep, tier):
         clause_b(facts, rep, ok)
         clause_c(facts, rep, tier)
         clause_d(facts, rep, nss)
+        clause_e(facts, rep, nss)
+        clause_f(facts, rep, nss)
+        clause_g(facts, rep, nss)
     rep.trust('clang 14 front end and constant evaluator', 'Python str.encode("utf-8") as the RFC 3629 oracle', 'path enumeration is exhaustive for the loop-free handle_unicode_codepoint')
     rep.assumptions += [
-        'decides the escape/hex tables, that no path of handle_unicode_codepoint encodes a surrogate or turns a pair into a BMP code point, UTF-8 encoding on boundary and sampled code points, and the error classes',
-        'does NOT decide the SIMD block classification nor the in-place copy loop across block alignments (value level)',
+        'decides the escape/hex tables, that no path of handle_unicode_codepoint encodes a surrogate or turns a pair into a BMP code point, UTF-8 encoding on boundary and sampled code points, the error classes, that bytes are consumed only behind a control-byte screening of the block they belong to, and the meaning of the StringBlock predicates and masks',
+        'does NOT decide the byte counts moved by the in-place copy loop across block alignments (value level); the simd wrapper operators ==, <= are taken as unsigned lane compares',
     ]
